@@ -173,7 +173,7 @@ def replay(ob):
         want = {"covalent": lambda: covalent_radii[Z], "vdw": lambda: vdw_radii[Z],
                 "vdw_covalent": lambda: vdw_radii[Z] if not np.isnan(vdw_radii[Z]) else covalent_radii[Z]}[w["preset"]]()
         return {"reproduced": not _same(got, float(want)), "call": "get_radii(%r, [%d])" % (w["preset"], Z), "got": got, "documented": float(want)}
-    if "consumer" in w or ob.id.startswith("radii.custom") or ob.id.endswith("elementwise"):
+    if "consumer" in w or ob.id.startswith("radii.custom") or ob.id.endswith("elementwise") or ob.id == "audit":
         # uniformity at the API: preset vs the same numbers as a custom array
         rng = np.random.default_rng(3)
         from matid.clustering import SBC
